@@ -43,7 +43,9 @@ static struct elem *LIVE[MAXT][MAXE];
 static int nlive[MAXT];
 static int ready[MAXT];
 static int tcls[MAXT];
-static int use_macro;             /* tables are made with CSTL_HASH_INITIALIZER instead of cstl_hash_init */            /* which embedded node the table object currently uses */
+static int use_macro;             /* tables are made with CSTL_HASH_INITIALIZER instead of cstl_hash_init */
+static int bigkeys;               /* keys are spread over all 64 bits (low bits still identify them) */
+static size_t KX(size_t a) { return bigkeys ? a | ((a * 0x9E3779B1u + 0x7F4A7C15u) << 32) : a; }            /* which embedded node the table object currently uses */
 
 /* ---- model of the requested geometry (C19) ---- */
 struct geo { size_t n; int f; };                /* f: function id, NF = unlogged cstl_hash_mul */
@@ -100,7 +102,7 @@ static struct elem *new_elem(int id)
     struct elem *e = vrt_alloc(sizeof(*e));
     memset(e, 0x5e, sizeof(*e));
     e->magic = MAGIC; e->id = id; e->where = -1; e->visits = 0;
-    e->key = mode == M_INCR ? (size_t)id * 3 + 1 : (size_t)(id % nkeys);
+    e->key = KX(mode == M_INCR ? (size_t)id * 3 + 1 : (size_t)(id % nkeys));
     e->node[0].key = e->node[1].key = e->key;   /* "key field initialised" for never-inserted objects */
     e->node[0].next = e->node[1].next = NULL;
     return e;
@@ -316,7 +318,7 @@ static void count_keyed(int t, const char *what)
 static int st_apply(uint32_t op, int audit)
 {
     const int kind = OP_KIND(op), t = OP_T(op);
-    const size_t a = OP_A(op);
+    const size_t a = (OP_KIND(op) == K_INSERT || OP_KIND(op) == K_FIND || OP_KIND(op) == K_ERASE) ? KX(OP_A(op)) : OP_A(op);
     const int b = OP_B(op);
     struct elem *e;
     struct wb wb;
@@ -699,12 +701,13 @@ static void probe_lookup_audit(int t)
     if (!ready[t]) return;
     vrt_state(phase_of(t));
     for (k = 0; k < (size_t)nkeys + 1; k++) {
-        struct findp f = { t, k, -1, 0, 0, NULL };
+        const size_t key = KX(k);
+        struct findp f = { t, key, -1, 0, 0, NULL };
         void *r;
-        int nl = count_live(t, k);
+        int nl = count_live(t, key);
         clear_visits(t);
         VRT_OP2("hash.find", "t%ld key=%ld (audit, rejecting visitor)", t, k);
-        r = cstl_hash_find(&T[t], k, find_visit, &f);
+        r = cstl_hash_find(&T[t], key, find_visit, &f);
         VRT_CHECK(f.bad == 0, "hash.audit.offered-wrong-object", "audit find(key %zu): offered a non-member/other key/twice (%d)", k, f.bad);
         VRT_CHECK(r == NULL, "hash.audit.returned-rejected", "audit find(key %zu) returned %p", k, r);
         if (f.noffered != nl)
@@ -813,10 +816,11 @@ static void run_closure(int ci)
     static uint32_t al[1024];
     int n = build_alphabet(s, al);
     struct vex_result r;
-    vrt_case_note("closure tables=%d keys=%d pool=%d buckets<=%d funcs=f%d,f%d alphabet=%d mode=%s",
-                  s->nt, s->nk, s->np, s->maxb, s->f0, s->f1, n, vrt_mode);
+    vrt_case_note("closure tables=%d keys=%d pool=%d buckets<=%d funcs=f%d,f%d alphabet=%d mode=%s%s%s",
+                  s->nt, s->nk, s->np, s->maxb, s->f0, s->f1, n, vrt_mode, (ci & 1) ? " initializer-macro" : "", ((ci >> 1) & 1) ? " 64-bit-keys" : "");
     nprobe_per_table = mode == M_ENUM ? 7 : 1;
     use_macro = ci & 1;
+    bigkeys = (ci >> 1) & 1;
     model.nprobes = mode == M_INCR ? 0 : nprobe_per_table * s->nt;
     resized_while_pending = 0;
     vex_closure(&model, SCOPE(s->nt, s->nk, s->np), al, n, s->max_states, 200, &r);
@@ -841,6 +845,7 @@ static void run_random(uint64_t idx)
     nops = under_memcheck() ? 600 : vrt_thorough ? 8000 : 2500;
     vrt_case_note("random tables=%d keys=%d pool=%d buckets<=%d ops=%d mode=%s", nt, nk, np, maxb, nops, vrt_mode);
     use_macro = idx & 1;
+    bigkeys = (idx >> 1) & 1;
     st_create(SCOPE(nt, nk, np));
     nprobe_per_table = mode == M_ENUM ? 7 : 1;
     for (i = 0; i < nops; i++) {
@@ -891,6 +896,83 @@ static void run_random(uint64_t idx)
 /* under valgrind (config rel-plain: uninitialised reads, which ASan does not see) the workload is a
  * small slice: three small closure scopes and a few dozen short random histories */
 static int under_memcheck(void) { return strcmp(vrt_config, "rel-plain") == 0; }
+/* C19 on a table with 2^16 -> 2^17 -> 40000 buckets and 70000 elements: the per-operation bound and the
+ * finish bound must not depend on the table size */
+#define BIGN 70000
+static void run_bigtable(uint64_t which)
+{
+    struct cstl_hash H;
+    struct belem { size_t key; struct cstl_hash_node n; uint64_t pad; } *E;
+    uint32_t *shadow;
+    unsigned char *bits;
+    vrt_rng g;
+    size_t i, count, target;
+    int phase;
+    bigkeys = (int)(which & 1);
+    vrt_rng_seed(&g, vrt_seed, 0xC19B16 + which);
+    vrt_case_note("big table: 70000 elements, 65536 -> 131072 -> 40000 buckets, %s keys", bigkeys ? "64-bit" : "small");
+    E = vrt_alloc(sizeof(*E) * BIGN); shadow = vrt_alloc(sizeof(*shadow) * BIGN); bits = vrt_alloc(131072);
+    memset(E, 0, sizeof(*E) * BIGN);
+    cstl_hash_init(&H, offsetof(struct belem, n));
+    VRT_OP0("hash.resize", "n=65536 f0 (first)");
+    cstl_hash_resize(&H, 65536, tr0);
+    for (i = 0; i < BIGN; i++) { E[i].key = KX(i); cstl_hash_insert(&H, E[i].key, &E[i]); shadow[i] = (uint32_t)fam(0, E[i].key, 65536); }
+    count = 65536;
+    for (phase = 0; phase < 2; phase++) {
+        const int fnew = phase ? 0 : 1;
+        size_t op, nops;
+        target = phase ? 40000 : 131072;
+        VRT_OP2("hash.resize", "n=%ld f%ld (leaves a rehash pending over a big table)", target, fnew);
+        cstl_hash_resize(&H, target, tramp[fnew]);
+        if (cstl_hash_load(&H) != (float)BIGN / target) vrt_fail("hash.resize.load.big", "load %g after resize to %zu", (double)cstl_hash_load(&H), target);
+        nops = count + 1;               /* after as many keyed calls as there were buckets it must be finished */
+        for (op = 0; op < nops; op++) {
+            const size_t e = vrt_below(&g, BIGN);
+            const int audit = op < 2500;
+            int j, nsrc = 0, own = 0;
+            uint32_t src[8];
+            void *r;
+            if (audit && H.bucket.rh.hash != NULL) for (i = 0; i < count; i++) bits[i] = H.bucket.at[i].cst == H.bucket.cst;
+            hlogn = 0;
+            if ((op & 4095) == 0) VRT_OP2("hash.find", "big table, keyed call #%ld of %ld", op, nops);
+            r = cstl_hash_find(&H, E[e].key, NULL, NULL);
+            if (r != &E[e]) vrt_fail("hash.big.find.missed", "element %zu not found in the big table (phase %d, call %zu)", e, phase, op);
+            if (op + 1 == nops) {
+                if (!(hlogn == 1 && hlog[0].m == target && hlog[0].f == fnew))
+                    vrt_fail("hash.incr.not-finished-in-time.big", "%d consultations after %zu keyed calls over %zu buckets", hlogn, op, count);
+                break;
+            }
+            if (hlogn == 1) continue;   /* finished early */
+            for (j = 0; j < hlogn && j < HLOG_MAX; j++) {
+                size_t x;
+                int q;
+                if (!(hlog[j].m == target && hlog[j].f == fnew)) continue;
+                if (hlog[j].k == E[e].key && !own) { own = 1; continue; }
+                x = hlog[j].k & 0xffffffffu;
+                if (x >= BIGN || E[x].key != hlog[j].k) continue;
+                for (q = 0; q < nsrc && q < 8; q++) if (src[q] == shadow[x]) break;
+                if (q == nsrc || q == 8) { if (nsrc < 8) src[nsrc] = shadow[x]; nsrc++; }
+                shadow[x] = (uint32_t)fam(fnew, hlog[j].k, target);
+            }
+            VRT_MAX("max.incr.big.source-buckets-per-keyed-call", nsrc);
+            if (nsrc > 3) vrt_fail("hash.incr.relocated-more-than-3-buckets.big", "one keyed call on a %zu-bucket table relocated out of %d buckets", count, nsrc);
+            if (audit && H.bucket.rh.hash != NULL && !no_whitebox) {
+                int flips = 0;
+                for (i = 0; i < count; i++) flips += bits[i] != (H.bucket.at[i].cst == H.bucket.cst);
+                VRT_MAX("max.incr.big.whitebox.clean-bits-flipped", flips);
+                if (flips > 3) vrt_fail("hash.incr.whitebox.more-than-3-buckets-cleaned.big", "%d of %zu buckets changed their clean bit in one keyed call", flips, count);
+            }
+            VRT_COUNT("incr.big.keyed-while-pending");
+        }
+        for (i = 0; i < BIGN; i++) shadow[i] = (uint32_t)fam(fnew, E[i].key, target);
+        count = target;
+    }
+    cstl_hash_clear(&H, NULL);
+    vrt_free(E); vrt_free(shadow); vrt_free(bits);
+    VRT_COUNT("incr.big.cases");
+    vrt_sig(0, 0xb16b16 + which);
+}
+#define NBIGT 2
 static uint64_t nrandom(void) { return under_memcheck() ? 48 : vrt_thorough ? 20000 : 1500; }
 static uint64_t ncases(void)
 {
@@ -898,12 +980,13 @@ static uint64_t ncases(void)
     if (vrt_thorough && !under_memcheck()) { scopes = thorough_scopes; nscopes = sizeof(thorough_scopes) / sizeof(scopes[0]); }
     else { scopes = quick_scopes; nscopes = sizeof(quick_scopes) / sizeof(scopes[0]); }
     if (under_memcheck()) nscopes = 3;
-    return nscopes + nrandom();
+    return nscopes + nrandom() + (mode == M_INCR && !under_memcheck() ? NBIGT : 0);
 }
 static void run_case(uint64_t idx)
 {
     if (idx < (uint64_t)nscopes) run_closure((int)idx);
-    else run_random(idx - nscopes);
+    else if (idx < nscopes + nrandom()) run_random(idx - nscopes);
+    else run_bigtable(idx - nscopes - nrandom());
 }
 static void winit(void)
 {
